@@ -20,12 +20,14 @@ use support::frame::addr_of;
 use support::ledger;
 use support::rng::{Fp, Rng};
 
-pub const CHAINS: [&str; 22] = [
+pub const CHAINS: [&str; 25] = [
     "key", "or_insert", "or_insert_with", "or_insert_with_key", "or_default", "and_modify.or_insert", "and_modify.or_default",
     "and_modify.and_modify.or_insert_with", "occ.key|vac.key", "occ.get|vac.into_key", "occ.get_mut.write|vac.insert",
     "occ.insert|vac.insert.write", "occ.remove|vac.key", "occ.remove_entry|vac.into_key", "occ.into_mut.write|vac.insert",
     "occ.get.insert.remove|vac.key.insert", "occ.get_mut.get.key|vac.key.into_key", "or_insert.write", "or_insert_with_key.write",
     "occ.insert.insert.get|vac.insert", "and_modify.key.or_insert", "occ.remove_entry|vac.insert",
+    // closures that unwind: the direct counterpart `if !contains_key(k) { insert(k, f()) }` stores nothing when f() panics
+    "or_insert_with(panics)", "or_insert_with_key(panics)", "and_modify(panics).or_insert",
 ];
 
 type Obs = Vec<(&'static str, u64)>;
@@ -104,6 +106,29 @@ fn via_entry<const N: usize>(chain: usize, m: &mut Map<TK, TV, N>, kc: u32, o: &
         }
         4 => {
             let r = e.or_default();
+            o.push(("ref", u64::from(r.payload)));
+            *addr = Some(addr_of(r));
+        }
+        22 => {
+            let r = e.or_insert_with(|| panic!("user closure panics"));
+            o.push(("ref", u64::from(r.payload)));
+            *addr = Some(addr_of(r));
+        }
+        23 => {
+            let r = e.or_insert_with_key(|kk| {
+                kk.check("closure key");
+                panic!("user closure panics")
+            });
+            o.push(("ref", u64::from(r.payload)));
+            *addr = Some(addr_of(r));
+        }
+        24 => {
+            let r = e
+                .and_modify(|x| {
+                    x.payload += MOD;
+                    panic!("user closure panics")
+                })
+                .or_insert(TV::new(NEWP));
             o.push(("ref", u64::from(r.payload)));
             *addr = Some(addr_of(r));
         }
@@ -287,6 +312,21 @@ fn via_direct<const N: usize>(chain: usize, m: &mut Map<TK, TV, N>, kc: u32, o: 
             o.push(("closure-key", if present { 0 } else { supplied }));
         }
         4 => or_insert(m, o, DEFAULT_PAYLOAD, None),
+        22 | 23 => {
+            if !present {
+                // `insert(k, f())`: the value is computed first, the panic leaves the map alone
+                let _k = TK::new(kc, KTAG);
+                panic!("user closure panics");
+            }
+            or_insert(m, o, NEWP, None);
+        }
+        24 => {
+            if present {
+                modify(m, MOD);
+                panic!("user closure panics");
+            }
+            or_insert(m, o, NEWP, None);
+        }
         5 => {
             calls[1] = u64::from(present);
             modify(m, MOD);
@@ -426,7 +466,7 @@ impl<'a> Ent<'a> {
             };
             v("panic-differs", format!("{}: the entry chain {} but the direct operations {} ({})", descr, if pa { "panicked" } else { "returned" }, if pb { "panicked" } else { "returned" }, m));
         } else if pa {
-            self.cx.rep.hit("both-panic(full map, vacant insert)");
+            self.cx.rep.hit(if chain >= 22 { "both-panic(user closure)" } else { "both-panic(full map, vacant insert)" });
             // observations made before the panic must agree on their common prefix
             let n = oa.len().min(ob.len());
             if oa[..n] != ob[..n] {
